@@ -246,12 +246,18 @@ func (b *setBox[T]) Do(o Op) *Viol {
 }
 
 func (b *setBox[T]) content() *Viol {
+	enumProp := "C04"
+	if b.sys.linked() {
+		enumProp = "C09"
+	} else if b.sys.ordered() {
+		enumProp = "C02"
+	}
 	if got := b.a.size(); got != len(b.ref) {
-		return viol(tag("C04", "C15"), "mismatch", "Size() = %d, reference has %d distinct members %v", got, len(b.ref), b.ref)
+		return viol(tag("C04", "C15", enumProp), "mismatch", "Size() = %d, reference has %d distinct members %v", got, len(b.ref), b.ref)
 	}
 	vals := b.a.values()
 	if len(vals) != len(b.ref) {
-		return viol(tag("C04", "C15"), "mismatch", "len(Values()) = %d, reference has %d members", len(vals), len(b.ref))
+		return viol(tag("C04", "C15", enumProp), "mismatch", "len(Values()) = %d, reference has %d members", len(vals), len(b.ref))
 	}
 	if b.sys.ordered() || b.sys.linked() {
 		pr := tag("C04", "C02")
